@@ -220,3 +220,53 @@ def run_session(rec, rng, props, nops):
             if last is not None and rng.random() < 0.7:
                 last = s.marshal() or last          # the same objects again under the other setting of the switch
     rec.add('Toggle', props, **actions.toggle('false'))
+
+
+def run_script(rec, rng, props, hist):
+    """S2C: one history generated by TLC from MC_Api (generator config), executed on real objects"""
+    s = Session(rec, rng, props)
+    last = None
+    for step in hist:
+        op = step['op']
+        if op == 'newdict':
+            d = {} if step['n'] == 0 else {'x': 7}
+            s.users.append(d)
+            s.add('HNewDict', v=abstract(d))
+        elif op == 'newprops':
+            p = commands.Basic.Properties()
+            s.users.append(p)
+            s.add('HNewProps', v=a_props(p))
+        elif op == 'construct':
+            u = step['u']
+            if step['cls'] == 'ContentHeader':
+                o = header.ContentHeader(0, 5, s.users[u - 1] if u else None)
+                s.objs.append(o)
+                s.add('HConstruct', cls='ContentHeader', size=[5], uref=u, out={'r': 'ok'}, kw={'_': {'t': 'none'}})
+            else:
+                k = framegen.class_of(step['cls'])
+                o = k(arguments=s.users[u - 1]) if u else k()
+                s.objs.append(o)
+                s.add('HConstruct', cls=step['cls'], kw={'_': {'t': 'none'}}, uref=u, out={'r': 'ok'}, size=[])
+        elif op in ('mutobj', 'mutuser'):
+            via_obj = op == 'mutobj'
+            idx = step['i'] if via_obj else step['j']
+            target = s.container(s.objs[idx - 1]) if via_obj else s.users[idx - 1]
+            n = step['n']
+            if isinstance(target, dict):
+                target['x'] = n
+                s.add('HMutate', via='obj' if via_obj else 'user', i=idx, key=[120], name='', v=abstract(n))
+            else:
+                target.priority = n % 256
+                s.add('HMutate', via='obj' if via_obj else 'user', i=idx, key=[], name='priority', v=abstract(n % 256))
+        elif op == 'marshal':
+            out = actions._call(frame.marshal, s.objs[step['i'] - 1], 1)
+            s.add('HMarshal', i=step['i'], ch=1, out=out)
+            if out['r'] == 'ok':
+                last = bytes(out['b'])
+        elif op == 'unmarshal' and last is not None:
+            s.unmarshal(last)
+        elif op == 'unmarshalbad' and last is not None:
+            s.unmarshal(last[:-1])
+        elif op == 'toggle':
+            rec.add('Toggle', props, **actions.toggle('true' if step['on'] else 'false'))
+    rec.add('Toggle', props, **actions.toggle('false'))
